@@ -818,3 +818,58 @@ package diam
 //@   requires c != nil && c.rwc != nil && cninv(c) && !locked(&c.mu)
 //@   ensures [C15] one_channel_per_connection: ch != nil && ch == c.closeNotifyc && (old(c.closeNotifyc) != nil ==> ch == old(c.closeNotifyc)) && cninv(c)
 //@ end
+//@
+//@ # ======================= network_sctp.go: the per-stream buffers of SCTPConn (C19) =====
+//@ # Data that arrives for a stream other than the one being read is parked in a bytes.Buffer labelled with its stream
+//@ # number (streamBuffer.stream, never changed after construction). What is proved here is the LABELLING: bytes are
+//@ # parked in, and later taken from, the buffer that carries their stream number, and ReadAny reports the label of the
+//@ # buffer it took bytes from. (FIFO order inside a buffer is bytes.Buffer's, trusted.)
+//@ spec smapok(s *streams) bool = forall k uint :: has(s.streamMap, k) ==> s.streamMap[k] != nil && s.streamMap[k].stream == k && s.streamMap[k].Buffer != nil
+//@ spec sheapok(s *streams) bool = forall i int :: 0 <= i && i < len(s.streamHeap) ==> s.streamHeap[i] != nil && s.streamHeap[i].Buffer != nil
+//@ func (*streams).Len(pq) (n)
+//@   property C19
+//@   pure
+//@   requires pq != nil
+//@   ensures n == len(pq.streamHeap)
+//@ end
+//@ func (*streams).Push(pq, x)
+//@   property C19
+//@   requires pq != nil && typeis(x, *streamBuffer) && x.(*streamBuffer) != nil && x.(*streamBuffer).Buffer != nil && smapok(pq) && sheapok(pq)
+//@   requires not_filed_yet: !has(pq.streamMap, x.(*streamBuffer).stream)
+//@   modifies pq.streamHeap, pq.streamMap, mapof(pq.streamMap), x.(*streamBuffer).idx, pq.streamHeap[len(pq.streamHeap):cap(pq.streamHeap)], fresh
+//@   ensures [C19] filed_under_its_stream: smapok(pq) && sheapok(pq) && has(pq.streamMap, x.(*streamBuffer).stream) && pq.streamMap[x.(*streamBuffer).stream] == x.(*streamBuffer)
+//@ end
+//@ func (*SCTPConn).ReadAny(msc, b) (n, stream, err)
+//@   property C19
+//@   unsafe_reads: the error handler is loaded atomically through unsafe.Pointer and then called; nothing is written through the converted pointer
+//@   requires msc != nil && msc.s != nil && sheapok(msc.s) && smapok(msc.s) && !locked(&msc.streamBuffMu)
+//@   ensures [C19] buffered_bytes_keep_their_stream: old(len(msc.s.streamHeap) > 0 && bqlen(msc.s.streamHeap[0].Buffer) > 0) ==>
+//@           lastbufread() == old(msc.s.streamHeap[0].Buffer) && stream == old(msc.s.streamHeap[0].stream)
+//@ end
+//@ func (*SCTPConn).verifyStreamBuff(msc, b, n, stream, currErr) (rn, err)
+//@   property C19
+//@   requires msc != nil && msc.s != nil && sheapok(msc.s) && smapok(msc.s) && !locked(&msc.streamBuffMu) && 0 <= n && n <= len(b)
+//@   ensures [C19] new_bytes_queue_behind_parked_ones_of_the_same_stream: old(has(msc.s.streamMap, stream) && bqlen(msc.s.streamMap[stream].Buffer) > 0) ==>
+//@           lastbufread() == old(msc.s.streamMap[stream].Buffer)
+//@   ensures [C19] that_buffer_carries_the_stream_number: old(has(msc.s.streamMap, stream)) ==> old(msc.s.streamMap[stream].stream) == stream
+//@   ensures [C19] otherwise_untouched: !old(has(msc.s.streamMap, stream) && bqlen(msc.s.streamMap[stream].Buffer) > 0) ==> rn == n && err == currErr && lastbufread() == old(lastbufread())
+//@   ensures lock_released: !locked(&msc.streamBuffMu) && sheapok(msc.s) && smapok(msc.s)
+//@ end
+//@ func (*SCTPConn).bufferStreamData(msc, b, stream)
+//@   property C19
+//@   requires msc != nil && msc.s != nil && sheapok(msc.s) && smapok(msc.s)
+//@   ensures [C19] parked_under_its_own_stream: has(msc.s.streamMap, stream) && msc.s.streamMap[stream].stream == stream &&
+//@           bqlen(msc.s.streamMap[stream].Buffer) == (old(has(msc.s.streamMap, stream)) ? old(bqlen(msc.s.streamMap[stream].Buffer)) : 0) + len(b)
+//@   ensures kept_heap: sheapok(msc.s)
+//@   ensures kept_map: smapok(msc.s)
+//@ end
+//@ func (*SCTPConn).ReadStream(msc, b, stream) (n, err)
+//@   property C19
+//@   requires msc != nil && msc.s != nil && sheapok(msc.s) && smapok(msc.s) && !locked(&msc.streamBuffMu)
+//@   requires a_real_stream: stream != InvalidStreamID
+//@   atcall Read: [C19] parked_bytes_come_from_the_buffer_of_the_stream_asked_for: sb.stream == stream
+//@   atcall bufferStreamData: [C19] only_other_streams_data_is_parked: currStream != stream
+//@   loop 0
+//@     invariant [C19] under_the_buffer_lock: locked(&msc.streamBuffMu) && sheapok(msc.s) && smapok(msc.s)
+//@   end
+//@ end
